@@ -217,7 +217,7 @@ func errFlags(e string) []string {
 	return f
 }
 
-const nilReturnPanic = "l.Get(-1) returned a Go-nil LValue; executeLuaForCanary calls returnValue.Type() on it: runtime error: invalid memory address or nil pointer dereference"
+const nilReturnNote = "RunLuaScript succeeded but l.Get(-1) is a Go-nil LValue; the real ingress provider run on the same script:"
 
 func guard(f func()) (msg string) {
 	defer func() {
@@ -263,6 +263,7 @@ func serveRaw(req *Request, in map[string]interface{}, resp *Response) {
 		encoded []byte
 		encErr  error
 		ran     bool
+		nilRV   bool
 	)
 	c0, t0 := cpuNow(), time.Now()
 	resp.Panic = guard(func() {
@@ -274,15 +275,26 @@ func serveRaw(req *Request, in map[string]interface{}, resp *Response) {
 		ran = true
 		rv = l.Get(-1)
 		if rv == nil {
-			// the providers go on with returnValue.Type(): nil pointer dereference
-			// (ingress.go / custom_network_provider.go executeLuaForCanary). Reported as that panic.
-			panic(nilReturnPanic)
+			// a Go-nil LValue: what happens next is decided by the real provider code below
+			nilRV = true
+			return
 		}
 		if rv.Type() == lua.LTTable {
 			encoded, encErr = luamanager.Encode(rv)
 		}
 	})
 	resp.WallNs, resp.CPUNs = int64(time.Since(t0)), cpuNow()-c0
+	if nilRV {
+		// l.Get(-1) handed out a Go-nil LValue. Let the REAL provider (same script) show what the
+		// controller does with it.
+		probe := &Response{Globals: map[string]string{}}
+		serveIngress(req, in, probe)
+		if probe.Panic != "" {
+			resp.Panic = nilReturnNote + "\n" + probe.Panic
+		} else {
+			rv = lua.LNil
+		}
+	}
 	var errText string
 	switch {
 	case resp.Panic != "":
